@@ -138,6 +138,22 @@ func replayWith(h *harness, body, comments []string) (bool, string) {
 					}
 				}
 			}
+		case "mgr":
+			// mgr basehex key,key,key, who script(with _ for spaces)
+			if len(f) == 5 {
+				base, e1 := hex.DecodeString(f[1])
+				var keys [][]byte
+				for _, ks := range strings.Split(strings.TrimRight(f[2], ","), ",") {
+					kb, e := hex.DecodeString(ks)
+					if e == nil && len(kb) == 32 {
+						keys = append(keys, kb)
+					}
+				}
+				who, _ := strconv.Atoi(f[3])
+				if e1 == nil && len(keys) == 3 {
+					h.mgrScript(base, keys, who, strings.ReplaceAll(f[4], "_", " "), true)
+				}
+			}
 		case "server":
 			// server seedhex key,key,key, who kind
 			if len(f) == 5 {
